@@ -265,6 +265,13 @@ def _c07_runs(tier):
             r.append(dict(h='mc_chunk', label='chunk-a%d-g%d-dev%d-%s-shard%d' % (a, g, dev, menu, i),
                           args=['--audio', str(a), '--gram', str(g), '--dev', str(dev), '--menu', menu, '--subsets', str(subsets),
                                 '--firstcut', str(firstcut), '--shard', '%d/%d' % (i, nsh)]))
+    # cuts where the cumulative number of cepstral frames is exactly f, f around the ring/feature-buffer sizes, and
+    # uniform chunkings of the whole utterance (1 sample ... 8192 samples per call, int16/float, with/without partial queries)
+    fr = [(2, 0, 2, 3), (2, 1, 1, 1), (3, 0, 1, 1), (3, 1, 1, 1)] if tier == 'quick' else [(2, 0, 3, 8), (2, 1, 2, 4), (3, 0, 2, 8), (3, 1, 2, 4), (1, 0, 2, 1), (4, 0, 1, 1)]
+    for a, g, dev, nsh in fr:
+        for i in range(nsh):
+            r.append(dict(h='mc_chunk', label='chunk-a%d-g%d-dev%d-frames-uniform-shard%d' % (a, g, dev, i),
+                          args=['--audio', str(a), '--gram', str(g), '--dev', str(dev), '--menu', 'frames', '--uniform', '1', '--shard', '%d/%d' % (i, nsh)]))
     if tier == 'thorough':
         for i in range(4):
             r.append(dict(h='mc_chunk', label='chunk-compallsen-shard%d' % i, args=['--audio', '2', '--gram', '0', '--dev', '2', '--menu', 'full',
@@ -413,7 +420,9 @@ CHECKS = {
              '24 sample offsets around every internal threshold (1, 2, shift+-1, window+-1, window+shift, feature window, 128 frames +-1 (MFCC '
              'ring), 256 frames +-1 (feature block), N/2, N-1), by buffering a chunk with no_search, by the float32 entry point, by a zero-length '
              'call, by a partial hyp/seg/lattice/alignment query after a chunk; ALL plans with <= 2-3 deviations, all 1023 cut subsets of a '
-             '10-point sub-menu, every first cut in [1,600]; audio = 0.3/0.7/1.4 s excerpts and the whole goforward.raw, zeros; loop grammar and '
+             '10-point sub-menu, every first cut in [1,600]; a second menu of the sample counts that complete exactly f cepstral frames for every '
+             'f in 124..136 and 252..264 (ring and feature-buffer sizes +- the dynamic-feature window); uniform chunkings of the whole utterance with '
+             '1, 80, 159, 160, 161, 320, 400, 512, 1024, 2048, 4096, 8192 samples per call (int16/float, with/without partial queries); audio = 0.3/0.7/1.4 s excerpts and the whole goforward.raw, zeros; loop grammar and '
              'alignment text; real front end and real scorer, decoder_set_cmn(fixed) before every utterance. Oracle (differential): feature '
              'vector of every searched frame (hashed at the acmod_score seam), frames searched, hypothesis, score, every segment with scores, '
              'and the three-level alignment identical to the reference run',
